@@ -3,6 +3,7 @@ import json, os, subprocess
 from . import common as C
 from . import semchecks as SC
 from . import simple as SP
+from . import grammar as GR
 
 CHECKS = {}
 
@@ -177,6 +178,16 @@ def c16(tier, replay):
                      "and of the names as the specification numbers them; the captures themselves are judged against ESSem. "
                      "Non-trivial: every recorded match.",
                      assumptions=["names are compared as code point sequences"])
+
+
+@check("C08")
+def c08(tier, replay):
+    return GR.check_c08(tier, replay)
+
+
+@check("C07")
+def c07(tier, replay):
+    return GR.check_c07(tier, replay)
 
 
 def cps_str(cps):
